@@ -72,6 +72,48 @@ func runMutantCorpus(c *Ctx, repo, verif string) {
 				Note: "independent seeded change", Patch: filepath.Join("..", "seeded", e.Name(), "patch.diff")})
 		}
 	}
+	// behaviour-preserving refactorings written by independent sub-agents: every check has to stay silent on
+	// every one of them, whichever property's code they touch
+	if ents, err := os.ReadDir(filepath.Join(verif, "seeded_neutral")); err == nil {
+		// a refactoring concerns this property when it touches a package in which the quick part of this run
+		// placed an obligation or analysed a function (tools/try_neutrals.sh runs every check on every one)
+		concerned := func(dir string) bool {
+			for _, o := range c.obs {
+				if strings.HasPrefix(o.Pos, dir+"/") || strings.Contains(o.Key, dir+".") {
+					return true
+				}
+			}
+			for f := range c.funcs {
+				if strings.Contains(f, dir+".") {
+					return true
+				}
+			}
+			return false
+		}
+		nSkipped := 0
+		for _, e := range ents {
+			pf := filepath.Join(verif, "seeded_neutral", e.Name(), "patch.diff")
+			pb, err := os.ReadFile(pf)
+			if err != nil {
+				continue
+			}
+			rel := false
+			for _, line := range strings.Split(string(pb), "\n") {
+				if strings.HasPrefix(line, "+++ b/") {
+					if concerned(filepath.Dir(strings.TrimPrefix(line, "+++ b/"))) {
+						rel = true
+					}
+				}
+			}
+			if !rel {
+				nSkipped++
+				continue
+			}
+			specs = append(specs, mutantSpec{ID: "refactor-" + e.Name(), Prop: c.Prop, Kind: "neutral",
+				Note: "independent behaviour-preserving refactoring", Patch: filepath.Join("..", "seeded_neutral", e.Name(), "patch.diff")})
+		}
+		c.Note("thorough: %d stored refactorings touch no package this property has obligations in and were left out", nSkipped)
+	}
 	sort.Slice(specs, func(i, j int) bool { return specs[i].ID < specs[j].ID })
 	if len(specs) == 0 {
 		return
@@ -79,7 +121,7 @@ func runMutantCorpus(c *Ctx, repo, verif string) {
 	exe, _ := os.Executable()
 	ctl := filepath.Join(verif, "checker", "testdata", "ctl")
 	results := make([]mutantResult, len(specs))
-	sem := make(chan struct{}, 6)
+	sem := make(chan struct{}, 8)
 	var wg sync.WaitGroup
 	for i, s := range specs {
 		wg.Add(1)
